@@ -158,6 +158,105 @@ pub fn make_streams(ctx: &mut Ctx, n_each: usize) -> Vec<S13> {
     v
 }
 
+/// Byte-level sessions for the wrapper model with bytes (`Model/InflBytes`, op IFB): real `inflate()`
+/// calls that do not ask to finish, over valid / truncated / corrupt / trailing streams and over
+/// streams whose plaintext laps the 32 KiB window several times; the caller re-offers what was
+/// not consumed followed by a new chunk. Every call is replayed by the Lean model.
+pub fn bytes_sessions(ctx: &mut Ctx) {
+    let mut streams: Vec<(Vec<u8>, bool, &'static str, usize, Option<Vec<u8>>)> = vec![];
+    for s in make_streams(ctx, 2 * ctx.scale.max(1)) { let pl = if s.kind == "valid" || s.kind == "trailing" { Some(s.plain.clone()) } else { None }; streams.push((s.z, s.zlib, s.kind, 0, pl)); }
+    // plaintexts that lap the window: the library's own compressor at levels 0 (stored), 1 and 6
+    for k in 0..(3 * ctx.scale.max(1)) {
+        let kind = *ctx.rng.pick(&["words", "random", "runs", "text4"]);
+        let len = ctx.rng.range(33_000, 120_000);
+        let plain = crate::plain::gen(&mut ctx.rng, kind, len);
+        let level = [0u8, 1, 6][k % 3];
+        let zlib = ctx.rng.chance(1, 2);
+        let z = if zlib { miniz_oxide::deflate::compress_to_vec_zlib(&plain, level) } else { miniz_oxide::deflate::compress_to_vec(&plain, level) };
+        streams.push((z, zlib, "laps", 0, Some(plain)));
+    }
+    // a stored block that starts within a few bytes of the end of the window (the parked-byte exits)
+    for k in 0..(4 * ctx.scale.max(1)) {
+        let zlib = k % 2 == 1;
+        let head = 32768 - ctx.rng.range(0, 6);
+        let (z, past) = sgen::window_edge_stream(&mut ctx.rng, zlib, head);
+        streams.push((z, zlib, "edge", past, None));
+    }
+    for (z, zlib, kind, past, plain) in streams {
+        // the first-call Finish shortcut, with room around the plaintext size
+        {
+            let full = miniz_oxide::inflate::decompress_to_vec_with_limit(if zlib && z.len() >= 2 { &z[2..] } else { &z[..] }, 1 << 20).map(|v| v.len()).unwrap_or(300);
+            for room in [0usize, 1, full.saturating_sub(1), full, full + 1, full + 1000] {
+                let id = ctx.id();
+                let mut st = InflateState::new_boxed(if zlib { DataFormat::Zlib } else { DataFormat::Raw });
+                let mut out = vec![0u8; room];
+                let stm = &mut st;
+                let r = match catch_unwind(AssertUnwindSafe(|| inflate(stm, &z, &mut out, MZFlush::Finish))) { Ok(r) => r, Err(_) => { ctx.violation(id, "panic", "panic in inflate(Finish) first call".into(), format!("IFFS zlib={} data={}", zlib as u8, hex(&z))); continue; } };
+                let code = match r.status { Ok(s) => s as i32, Err(e) => e as i32 };
+                ctx.line(&format!("IFF id={} zlib={} in={} room={} c={} out={} st={}", id, zlib as u8, hex(&z), room, r.bytes_consumed, hex(&out[..r.bytes_written]), code));
+                ctx.count("iff_calls"); ctx.count(&format!("iff_{}_{}", kind, code));
+            }
+        }
+        for rep in 0..(if ctx.quick() { 3 } else { 6 }) {
+            let seed = ctx.rng.next();
+            ifb_session(ctx, &z, zlib, kind, past, plain.as_deref(), rep, seed);
+        }
+    }
+}
+
+/// One byte-level session; every schedule choice comes from `seed`, so the session replays exactly
+/// (`IFBS` replay line). `plain` (when the stream is known to be valid): native oracle — delivered bytes
+/// are a prefix of it after every call, equal to it at stream end, never a data error.
+pub fn ifb_session(ctx: &mut Ctx, z: &[u8], zlib: bool, kind: &str, past: usize, plain: Option<&[u8]>, rep: usize, seed: u64) {
+    let mut rng = crate::rng::Rng::new(seed);
+    let id = ctx.id();
+    let replay = format!("IFBS zlib={} kind={} past={} rep={} seed={} plain={} data={}", zlib as u8, kind, past, rep, seed, plain.map(|p| hex(p)).unwrap_or("?".into()), hex(z));
+    ctx.line(&format!("IFBNEW id={} zlib={}", id, zlib as u8));
+    let mut st = InflateState::new_boxed(if zlib { DataFormat::Zlib } else { DataFormat::Raw });
+    let mut fed = 0usize;       // bytes of z handed to the caller's buffer so far
+    let mut carry: Vec<u8> = vec![];
+    let mut delivered: Vec<u8> = vec![];
+    // styles 6, 7: a fixed output size per call chosen so that the number of bytes handed over reaches
+    // 32767 / 32768 / 32769 modulo the window size exactly at the end of a call (32767 = 7 * 4681 = 31 * 1057 = 151 * 217)
+    let style = if kind == "edge" { 2 + rng.below(4) } else if kind == "laps" && rep == 1 { 6 } else if kind == "laps" && rep >= 2 { 6 + rng.below(2) } else { rng.below(4) };
+    let fixed_room = if rep == 1 { *rng.pick(&[32767usize, 4681, 1057, 217]) } else { *rng.pick(&[32767usize, 32766, 32769, 16383, 4681, 1057, 217, 65535]) };
+    let mut first = true;
+    let mut idle = 0;
+    for call in 0..400 {
+        let left = z.len() - fed;
+        let chunk = match style { 6 => usize::MAX, 7 => rng.range(0, 3000), 4 if first => usize::MAX, 5 if first => past, 4 | 5 => rng.range(0, 3000), 0 => *rng.pick(&[0usize, 1, 2, 7, 100, 5000, usize::MAX]), 1 => 1, 2 => usize::MAX, _ => rng.range(0, 3000) }.min(left);
+        let room = match style { 6 | 7 => fixed_room, 4 if first => 32768, 5 if first => 100_000, 2 => *rng.pick(&[1usize, 40000, 100_000]), _ => *rng.pick(&[0usize, 1, 3, 100, 4000, 32768, 40000, 100_000]) };
+        first = false;
+        let mut inp = carry.clone(); inp.extend_from_slice(&z[fed..fed + chunk]);
+        let new = &z[fed..fed + chunk];
+        fed += chunk;
+        let mut out = vec![0u8; room];
+        let fl = if rng.chance(1, 5) { MZFlush::Sync } else { MZFlush::None };
+        let stm = &mut st;
+        let r = match catch_unwind(AssertUnwindSafe(|| inflate(stm, &inp, &mut out, fl))) { Ok(r) => r, Err(_) => { ctx.violation(id, "panic", "panic in inflate() during a byte-level session".into(), replay.clone()); break; } };
+        let tr = st.verif_take_core_trace();
+        let last_inner = tr.last().map(|e| e[4].to_string()).unwrap_or("-".into());
+        let code = match r.status { Ok(s) => s as i32, Err(e) => e as i32 };
+        ctx.line(&format!("IFB id={} in={} room={} c={} out={} st={} last={}", id, hex(new), room, r.bytes_consumed, hex(&out[..r.bytes_written]), code, last_inner));
+        ctx.count("ifb_calls"); ctx.count(&format!("ifb_{}_{}", kind, code));
+        delivered.extend_from_slice(&out[..r.bytes_written]);
+        if let Some(p) = plain {
+            if delivered.len() > p.len() || delivered[..] != p[..delivered.len()] {
+                ctx.violation(id, "prefix", format!("[session style {} room {}] call #{}: {} delivered bytes are not a prefix of the plaintext (first mismatch at {})", style, room, call + 1, delivered.len(), delivered.iter().zip(p.iter()).position(|(a, b)| a != b).unwrap_or(p.len())), replay.clone());
+                break;
+            }
+            if r.status == Ok(MZStatus::StreamEnd) && delivered.len() != p.len() { ctx.violation(id, "streamend", format!("call #{}: stream end with {} of {} plaintext bytes delivered", call + 1, delivered.len(), p.len()), replay.clone()); break; }
+            if r.status == Err(MZError::Data) { ctx.violation(id, "dataerr", format!("call #{}: data error on a valid stream", call + 1), replay.clone()); break; }
+        }
+        carry = inp[r.bytes_consumed..].to_vec();
+        if r.bytes_consumed == 0 && r.bytes_written == 0 { idle += 1; } else { idle = 0; }
+        if r.status == Ok(MZStatus::StreamEnd) || r.status == Err(MZError::Data) { if rng.chance(1, 2) || idle > 1 { break; } }
+        if left == 0 && idle > 2 { break; }
+    }
+    ctx.evals += 1; ctx.nontrivial.insert(fnv(z) ^ (id as u64) << 8 | 1);
+    ctx.count("ifb_sessions");
+}
+
 fn report(ctx: &mut Ctx, s: &S13, actions: &[usize], seed: u64, problems: Vec<(String, String)>) {
     if problems.is_empty() { return; }
     let id = ctx.id();
@@ -168,6 +267,11 @@ fn report(ctx: &mut Ctx, s: &S13, actions: &[usize], seed: u64, problems: Vec<(S
 
 pub fn run(ctx: &mut Ctx) {
     if let Some(lines) = ctx.replay_lines.clone() {
+        for l in &lines { if let Some(rest) = l.strip_prefix("IFBS ") { let kv = crate::kv(rest);
+            let z = crate::tx::unhex(&kv["data"]);
+            let plain = if kv["plain"] == "?" { None } else { Some(crate::tx::unhex(&kv["plain"])) };
+            let kind: &'static str = match kv["kind"].as_str() { "laps" => "laps", "edge" => "edge", "valid" => "valid", "trailing" => "trailing", "truncated" => "truncated", _ => "corrupt" };
+            ifb_session(ctx, &z, kv["zlib"] == "1", kind, kv["past"].parse().unwrap_or(0), plain.as_deref(), kv["rep"].parse().unwrap_or(0), kv["seed"].parse().unwrap_or(1)); } }
         for l in lines { if let Some(rest) = l.strip_prefix("INFSEQ ") { let kv = crate::kv(rest);
             let kind: &'static str = match kv["kind"].as_str() { "valid" => "valid", "truncated" => "truncated", "corrupt" => "corrupt", _ => "trailing" };
             let s = S13 { z: crate::tx::unhex(&kv["data"]), zlib: kv["fmt"] == "1", plain: crate::tx::unhex(&kv["plain"]), enc_len: kv["enc"].parse().unwrap(), kind };
@@ -213,5 +317,6 @@ pub fn run(ctx: &mut Ctx) {
         }
     }
     for c in counters { ctx.count(&c); }
+    bytes_sessions(ctx);
     ctx.sample(format!("depth-{} exhaustive over 64 actions (chunk 0/1/2/rest x out 0/1/3/100000 x None/Sync/Finish/Full) on {} streams, e.g. actions [{} {}]", depth, streams.len(), action_name(37), action_name(50)));
 }
